@@ -290,17 +290,33 @@ def sequence_numbers(lo: int = 1):
     )
 
 
+def zero_tail_payload_specs(max_data: int = 238):
+    """GroupValueWrite / Response payloads whose data ends in 1..3 octets 0x00, or is all zero.
+    (A zero-padding MAC cannot tell such APDUs from their shortened / zero-extended versions.)"""
+    head = st.one_of(st.binary(min_size=0, max_size=4), st.binary(min_size=0, max_size=max(0, min(40, max_data - 3))))
+    tailed = st.tuples(head, st.integers(1, 3)).map(lambda t: (t[0] + bytes(t[1]))[:max_data])
+    zeros = st.integers(1, min(max_data, 34)).map(bytes)
+    return st.tuples(st.sampled_from(("gvw", "gvr")), st.one_of(tailed, tailed, zeros))
+
+
 @st.composite
-def secure_specs(draw, n_services: int = 0, max_plain_data: int = 238, tpcis=GROUP_TPCI):
-    """A secured group frame: plain APDU of 1 + len(data) .. octets (payload spec as above)."""
+def secure_specs(draw, n_services: int = 0, max_plain_data: int = 238, tpcis=GROUP_TPCI, zero_tail_share: int = 0):
+    """A secured group frame: plain APDU of 1 + len(data) .. octets (payload spec as above).
+    zero_tail_share: k of 10 cases get a payload ending in 0x00 octets / all zero (biased to authentication only)."""
+    if zero_tail_share and draw(st.integers(0, 9)) < zero_tail_share:
+        payload = draw(zero_tail_payload_specs(max_plain_data))
+        alg = draw(st.sampled_from(("auth", "auth", "enc")))
+    else:
+        payload = draw(payload_specs(max_data=max_plain_data, n_services=n_services))
+        alg = draw(st.sampled_from(("enc", "enc", "auth")))
     return {
         "key": draw(st.binary(min_size=16, max_size=16)),
         "src": draw(st.one_of(st.sampled_from((0x1101, 0xFFFF, 1)), st.integers(1, 0xFFFF))),
         "dst": draw(st.one_of(st.sampled_from((1, 0x0400, 0xFFFF)), st.integers(1, 0xFFFF))),
         "tpci": draw(st.sampled_from(tpcis)),
         "seq": draw(sequence_numbers()),
-        "alg": draw(st.sampled_from(("enc", "enc", "auth"))),
-        "payload": draw(payload_specs(max_data=max_plain_data, n_services=n_services)),
+        "alg": alg,
+        "payload": payload,
         "priority": draw(st.integers(0, 3)),
         "repeat": draw(st.booleans()),
         "ack": draw(st.booleans()),
